@@ -1,15 +1,16 @@
 #!/bin/bash
 # Litmus conformance of the runtime model (DESIGN §2.6): same source, real runtime vs model.
 set -e
-cd /verif
+cd "$(dirname "$0")/.."
+export VERIF_ROOT="$PWD"
 export GOFLAGS=-mod=mod GOPROXY=off GOSUMDB=off GOTOOLCHAIN=local
-W=/verif/.work/litmus-$$
+W=$PWD/.work/litmus-$$
 mkdir -p "$W" evidence
 trap 'rm -rf "$W"' EXIT
 [ -x bin/vinstr ] || go build -o bin/vinstr ./cmd/vinstr
 go build -o "$W/real.bin" ./checks/litmus
 "$W/real.bin" -out "$W/real.json" -iters "${LITMUS_ITERS:-1500}"
-bin/vinstr -work "$W/inst" -harness ./checks/litmus . >/dev/null
+bin/vinstr -root "$PWD" -work "$W/inst" -harness ./checks/litmus . >/dev/null
 go build -tags verif -overlay "$W/inst/overlay.json" -o "$W/model.bin" ./checks/litmus
 "$W/model.bin" -real "$W/real.json" | tee "$W/out.txt"
 rc=${PIPESTATUS[0]}
